@@ -92,6 +92,13 @@ fn content_strategy(tier: Tier) -> BoxedStrategy<Vec<u8>> {
         }),
         2 => prop::collection::vec(any::<u8>(), 0..300),
         1 => (1usize..max, any::<u8>()).prop_map(|(n, s)| (0..n).map(|i| (i as u8).wrapping_mul(s | 1).wrapping_add(s)).collect()),
+        // one very long line with the marker deep inside
+        1 => (1500usize..max.min(6000).max(1501), prop::sample::select(vec![&b"$NetBSD$"[..], b"$NetBSD", b"$NetBS"])).prop_map(|(n, marker)| {
+            let mut v: Vec<u8> = (0..n).map(|i| b"abcdefghij"[i % 10]).collect();
+            v.extend_from_slice(marker);
+            v.extend_from_slice(b" trailing text\nnext\n");
+            v
+        }),
         // a marker line at an arbitrary offset (any internal buffer size has an edge somewhere)
         2 => (0usize..max.min(9000), prop::sample::select(vec![&b"$NetBSD$"[..], b"x $NetBSD: y $", b"$NetBSD", b"$NetBS"]), 1usize..80).prop_map(|(at, marker, w)| {
             let mut v = vec![];
